@@ -42,6 +42,25 @@ Definition run_dec (cc : ccfg) (w : wcfg) (args : list bytes) : bytes :=
   | _ => bad_input
   end.
 
+(** REENC <hex>: decode, then encode what was decoded *)
+Definition run_reenc (cc : ccfg) (w : wcfg) (args : list bytes) : bytes :=
+  match args with
+  | [h] => match parse_hex h with
+           | Some b =>
+               match decode_cbor cc w b with
+               | DOk c =>
+                   match c_kind c, c_swc c with
+                   | K2, Some [] => s2b "*"
+                   | _, _ => match encode_cbor w c with Some e => s2b "ok:" ++ hex_of e | None => s2b "encerr" end
+                   end
+               | DErr => s2b "err"
+               | DUnmodelled => s2b "*"
+               end
+           | None => bad_input
+           end
+  | _ => bad_input
+  end.
+
 Definition run_rt (cc : ccfg) (w : wcfg) (args : list bytes) : bytes :=
   match parse_claims args with
   | Some (c, []) =>
